@@ -125,6 +125,9 @@ func (r *Report) Violation(sig, desc, sys string, arg any) {
 		return
 	}
 	r.violSigs[sig]++
+	if r.violSigs[sig] == 1 && os.Getenv("VERIF_DEBUG") != "" {
+		fmt.Printf("DEBUG first case of %s: %s\n", sig, oneLine(desc, 900))
+	}
 	if r.violSigs[sig] > 3 || len(r.viols) >= 25 {
 		return // keep at most 3 replays per signature
 	}
